@@ -187,17 +187,18 @@ func absoluteTimeFormat(timeStr string) string {
 
 func parseMetricTag(m string) (string, uint64, []*structs.TagsFilter, error) {
 	logicalOperator := sutils.And
-	metricStart := strings.LastIndex(m, ":") + 1
 	metricEnd := strings.Index(m, "{")
 	if metricEnd == -1 {
 		metricEnd = len(m)
 	}
+	// the metric name ends at the tags: a ':' inside the tags is not the one in front of the name
+	metricStart := strings.LastIndex(m[:metricEnd], ":") + 1
 	metric := m[metricStart:metricEnd]
 	hashedMName := xxhash.Sum64String(metric)
 
 	tagsStart := strings.Index(m, "{")
 	tagsEnd := strings.Index(m, "}")
-	if tagsStart == -1 || tagsEnd == -1 {
+	if tagsStart == -1 || tagsEnd < tagsStart {
 		log.Errorf("parseMetricTag: invalid query format, either tasgStart or tagsEnd was -1 for m: %s", m)
 		return metric, hashedMName, nil, fmt.Errorf("invalid query format, either tasgStart or tagsEnd was -1 for m: %s", m)
 	}
